@@ -381,17 +381,31 @@ func checkC15(p *Prog, r *Report) {
 							n, seen := lookupIdx[l]
 							return seen && n > lastRelease
 						})
+						// what is known about the entry (its Wait field) must have been read in the critical section
+						// of the update: an entry read before the lock was last released may have been replaced since
+						inSection := func(v ssa.Value) bool {
+							found, fresh := false, true
+							for x := range backSlice(v, SliceOpts{}) {
+								if l, ok := x.(*ssa.Lookup); ok && isM(l.X) {
+									found = true
+									if n, seen := lookupIdx[l]; !seen || n <= lastRelease {
+										fresh = false
+									}
+								}
+							}
+							return found && fresh
+						}
 						noWaiter := pa.HasFact(true, func(v ssa.Value) bool {
 							eq, ok := isFieldNilTest(v, waitField)
-							return ok && eq
+							return ok && eq && inSection(v)
 						}) || pa.HasFact(false, func(v ssa.Value) bool {
 							eq, ok := isFieldNilTest(v, waitField)
-							return ok && !eq
+							return ok && !eq && inSection(v)
 						})
 						closed := false
 						for _, j := range instrs {
 							if c, ok := j.(*ssa.Call); ok {
-								if b, ok := c.Call.Value.(*ssa.Builtin); ok && b.Name() == "close" && derivesFromField(c.Call.Args[0], waitField) {
+								if b, ok := c.Call.Value.(*ssa.Builtin); ok && b.Name() == "close" && derivesFromField(c.Call.Args[0], waitField) && inSection(c.Call.Args[0]) {
 									closed = true
 								}
 							}
@@ -403,7 +417,7 @@ func checkC15(p *Prog, r *Report) {
 					}
 				}
 				if nBad > 0 {
-					r.bad("E5.no-lost-wakeup", "map update in "+fn.Name(), p.pos(badPos), fnName(fn), itoa(nBad)+" path(s) overwrite an entry that may carry a Wait channel without closing it and without a key-absent or Wait==nil fact: a goroutine blocked on that channel is never released")
+					r.bad("E5.no-lost-wakeup", "map update in "+fn.Name(), p.pos(badPos), fnName(fn), itoa(nBad)+" path(s) overwrite an entry that may carry a Wait channel without closing the channel of the entry as read in that critical section, and without a key-absent or Wait==nil fact from that section (an entry read before the lock was last released may have been replaced by a waiter's placeholder since): a goroutine blocked on that channel is never released")
 				} else {
 					r.ok("E5.no-lost-wakeup", "map update in "+fn.Name(), p.pos(fn.Pos()), fnName(fn), itoa(nUpd)+" (path, update) pairs over "+itoa(len(paths))+" paths justified by key-absent fact, Wait==nil fact or close on the path")
 				}
@@ -478,6 +492,96 @@ func checkC15(p *Prog, r *Report) {
 	r.floor("E6.close-discipline", 1)
 	r.floor("E5.no-lost-wakeup", 2)
 	r.floor("E9.placeholder-aware", 2)
+	// Values reports every added entry it visits: in whatever function walks shard.m on behalf of Map.Values, an
+	// iteration can leave a value out only because the entry is a waiter's placeholder (Wait != nil)
+	if mv := p.Fn("cmap", "Map.Values"); mv == nil {
+		r.unresolved("E5.values-complete", "cmap.Map.Values")
+	} else {
+		rl := "E5.values-complete"
+		collects := func(i ssa.Instruction) bool {
+			switch x := i.(type) {
+			case *ssa.Call:
+				b, ok := x.Call.Value.(*ssa.Builtin)
+				return ok && b.Name() == "append"
+			case *ssa.Store:
+				_, isIdx := x.Addr.(*ssa.IndexAddr)
+				return isIdx
+			}
+			return false
+		}
+		nLoops := 0
+		for _, g := range p.closure([]*ssa.Function{mv}, 3, inRepoPkgs("cmap")) {
+			for _, gg := range withAnon(g) {
+				// (a) a range over shard.m that collects values
+				for _, l := range mapRangeLoops(gg) {
+					hasCollect := false
+					for b := range l.blocks {
+						for _, i := range b.Instrs {
+							if collects(i) {
+								hasCollect = true
+							}
+						}
+					}
+					if !hasCollect {
+						continue
+					}
+					nLoops++
+					// walk one iteration; at a test of the entry's Wait field only the "added" side is followed
+					skip := false
+					seen := map[*ssa.BasicBlock]bool{}
+					st := []*ssa.BasicBlock{l.body}
+					for len(st) > 0 && !skip {
+						b := st[len(st)-1]
+						st = st[:len(st)-1]
+						if seen[b] {
+							continue
+						}
+						seen[b] = true
+						if b == l.header {
+							skip = true
+							break
+						}
+						if !l.blocks[b] {
+							continue
+						}
+						blocked := false
+						for _, i := range b.Instrs {
+							if collects(i) {
+								blocked = true
+							}
+						}
+						if blocked {
+							continue
+						}
+						succs := b.Succs
+						if iff, ok := lastIf(b); ok && len(succs) == 2 {
+							if eq, ok := isFieldNilTest(iff.Cond, waitField); ok {
+								if eq {
+									succs = succs[:1]
+								} else {
+									succs = succs[1:]
+								}
+							}
+						}
+						st = append(st, succs...)
+					}
+					r.check(!skip, rl, gg.Name()+" collects every added entry of the shard", p.pos(gg.Pos()), fnName(gg), "an iteration over shard.m leaves a value out only when the entry is a placeholder", "the walk that collects the map's values can skip an entry that has been added (e.g. a result buffer sized in an earlier sweep is full): a key present throughout the call is missing from Values()")
+				}
+				// (b) a callback that receives each value and stores it
+				if gg.Parent() != nil && len(gg.Params) > 0 {
+					stores := false
+					eachInstr(gg, false, func(_ *ssa.Function, i ssa.Instruction) { stores = stores || collects(i) })
+					if stores && topFunc(gg) == mv {
+						nLoops++
+						r.check(!existsPath(gg, nil, nil, collects), rl, gg.Name()+" keeps every value it is handed", p.pos(gg.Pos()), fnName(gg), "no return without storing the value", "the callback that collects values for Values() drops some of them (a cut-off against a length counted earlier): values of keys that were present throughout the call are lost when other keys are added concurrently")
+					}
+				}
+			}
+		}
+		if nLoops == 0 {
+			r.unresolved(rl, "the loop or callback that collects values for Map.Values")
+		}
+	}
 
 	// ErrMap.GetOrSet first-caller rule
 	rule := "E5.first-caller-sets"
